@@ -234,7 +234,9 @@ func (d *segmentationDescriptor) parseDescriptor(data []byte) error {
 			if buf.Len() < 10 {
 				return gots.ErrInvalidSCTE35Length
 			}
-			d.duration = uint40(buf.Next(5))
+			durBytes := buf.Next(5)
+			// segmentation_duration is a full 40-bit field (uint40 only keeps 33 bits)
+			d.duration = gots.PTS(durBytes[0])<<32 | uint40(durBytes)&0xffffffff
 		}
 		// Upid unneeded now...
 		d.upidType = SegUPIDType(readByte())
